@@ -206,7 +206,7 @@ Proof.
     assert (E' : nget (nset (d_regs d) (idgen_next (d_idgen d))
                             (mkReg (idgen_next (d_idgen d)) proc (opt_string opts "match") (opt_string opts "invoke")
                                    (if opt_bool opts "disclose_caller" then [s_id callee] else [])
-                                   (opt_bool opts "forward_timeout") 0 [s_id callee])) rid = Some rg').
+                                   (if opt_bool opts "forward_timeout" then [s_id callee] else []) 0 [s_id callee])) rid = Some rg').
     { destruct (mkind_of (opt_string opts "match")); exact E. }
     rewrite ngs in E'. destruct (N.eqb_spec rid (idgen_next (d_idgen d))) as [->|Hn]; [|apply Keep; exact E'].
     inversion E'; subst rg'. cbn [reg_disclose].
@@ -249,7 +249,7 @@ Proof.
     assert (H' : nget (nset (d_regs d) (idgen_next (d_idgen d))
                             (mkReg (idgen_next (d_idgen d)) proc (opt_string opts "match") (opt_string opts "invoke")
                                    (if opt_bool opts "disclose_caller" then [s_id callee] else [])
-                                   (opt_bool opts "forward_timeout") 0 [s_id callee])) rid = Some rg').
+                                   (if opt_bool opts "forward_timeout" then [s_id callee] else []) 0 [s_id callee])) rid = Some rg').
     { destruct (mkind_of (opt_string opts "match")); exact H. }
     rewrite ngs in H'. destruct (N.eqb_spec rid (idgen_next (d_idgen d))) as [->|Hn]; [|exact (OK rid rg' H')].
     inversion H'; subst rg'. cbn [reg_disclose reg_callees].
